@@ -268,6 +268,49 @@ example : runChecked (TxCount.init 3)
     = some { counter := 1, resizing := false, resizes := 1,
              ths := [{}, {}, { opened := 1 }] } := by decide
 
+/-- Nested reads under an outer transaction while a resize is (or becomes) pending.  In any state
+reachable by the atomic protocol in which thread `t` holds an outer transaction (depth > 0):
+any number `i + j` of consecutive nested operations of `t` — each a complete enter/leave pair: a
+point lookup, a nested iterator — with another thread's resize request falling before the first,
+between two of them, or after the last, is a valid schedule: every enter is enabled although the
+resize is pending, and afterwards the state is exactly the one before with `resizing` set — the
+thread is still registered with the same depth (nested read #1 ending does NOT unregister it, so
+read #2 passes), the counter is unchanged, and the resize stays disabled until `t` leaves its
+outer transaction. -/
+theorem nested_reads_keep_registered (threads : Nat) (acts : List Act) (s : TxCount.St) (t i j : Nat)
+    (hat : ∀ a ∈ acts, a.atomic = true) (hrun : runChecked (TxCount.init threads) acts = some s)
+    (ht : t < threads) (hin : 0 < depth s t) :
+    runChecked s (nestedPairs t (i + j)) = some s ∧
+    (s.resizing = false →
+      runChecked s (nestedPairs t i ++ [.request] ++ nestedPairs t j) = some { s with resizing := true } ∧
+      enabled { s with resizing := true } (.enter t) = true ∧
+      enabled { s with resizing := true } .resize = false) := by
+  have hlen : s.ths.length = threads := by
+    rw [length_run acts _ s hrun]; simp [TxCount.init]
+  have inv := inv_run acts _ s (inv_init threads) hat hrun
+  have hreg : (thOf t s.ths).reg = none := inv.noreg _ (thOf_mem t s.ths (by omega))
+  refine ⟨run_nestedPairs s t (by omega) hin hreg (i + j), ?_⟩
+  intro hrz
+  have hs' : ∀ k, runChecked { s with resizing := true } (nestedPairs t k) = some { s with resizing := true } :=
+    run_nestedPairs { s with resizing := true } t (by simpa using (by omega : t < s.ths.length)) hin hreg
+  refine ⟨?_, ?_, ?_⟩
+  · rw [runChecked_append, runChecked_append, run_nestedPairs s t (by omega) hin hreg i]
+    simp only [Option.bind, runChecked, enabled, hrz, Bool.not_false, if_true, TxCount.step]
+    exact hs' j
+  · simp only [enabled, hlen, Bool.and_eq_true, decide_eq_true_eq, Bool.or_eq_true, Bool.not_eq_true']
+    exact ⟨ht, Or.inr hin⟩
+  · have hc : s.counter ≠ 0 := by
+      rw [inv.count]
+      have := opened_le_total t s.ths
+      simp only [depth] at hin
+      omega
+    simp [enabled, hc]
+
+/-- non-vacuity: outer iterator of thread 0, the other thread's resize request between nested read
+#1 and #2 of three -/
+example : runChecked (TxCount.init 2) ([.enter 0] ++ nestedPairs 0 1 ++ [.request] ++ nestedPairs 0 2 ++ [.leave 0, .resize, .enter 1, .leave 1])
+    = some { counter := 0, resizing := false, resizes := 1, ths := [{}, {}] } := by decide
+
 /-- Kernel-checked witness that a decrement made of a separate load and store loses an update
 when two of them interleave: two readers enter (counter 2), both load 2, both store 1.  The
 schedule is valid (every transition enabled when taken), consists of complete enter/leave pairs
